@@ -1,15 +1,372 @@
-//! Quotations and links (feature `weak`) — C20 workload calls.
+//! Quotations and links (feature `weak`) — C20 workload calls and monitor.
 use crate::dump::*;
+use crate::model::{integrated_units, Uid};
+use crate::monitors::{layout, Layout};
 use crate::ops::*;
 use crate::prog::*;
-use yrs::TransactionMut;
+use crate::util::catch;
+use crate::world::*;
+use std::collections::{HashMap, HashSet};
+use std::sync::{Arc, Mutex};
+use yrs::{Array, ArrayRef, GetString, Map, MapRef, Observable, Out, Quotable, ReadTxn, TextRef, Transact, TransactionMut, WeakRef};
 
-pub fn exec_weak(
-    _call: &Call,
-    _roots: &Roots,
-    _types: &[(Handle, u32)],
-    _txn: &mut TransactionMut,
-    _ctx: &mut OpCtx,
-) -> Vec<Effect> {
-    vec![Effect::Nop]
+pub struct QuoteRec {
+    pub key: String,
+    pub wid: String,
+    pub src: Cid,
+    pub text: bool,
+    /// boundary units as the range named them (None = unbounded)
+    pub start: Option<Uid>,
+    pub end: Option<Uid>,
+    pub end_incl: bool,
+    pub created_on: usize,
+    pub desc: String,
+    pub fired: Arc<Mutex<u32>>,
+    pub last_expected: HashMap<usize, Vec<String>>,
+    pub last_fired: u32,
+}
+
+pub struct LinkRec {
+    pub wid: String,
+    pub src: Cid,
+    pub key: String,
+    pub uid: Uid,
+}
+
+#[derive(Default)]
+pub struct WeakState {
+    pub quotes: Vec<QuoteRec>,
+    pub links: Vec<LinkRec>,
+    pub subs: Vec<yrs::Subscription>,
+}
+
+fn offs(lay: &Layout, upto: usize) -> u32 {
+    lay.widths[..upto].iter().sum()
+}
+
+pub fn exec_weak(call: &Call, roots: &Roots, types: &[(Handle, u32)], txn: &mut TransactionMut, ctx: &mut OpCtx) -> Vec<Effect> {
+    match call {
+        Call::Quote { src, kind, start, len, form, key } => {
+            let kinds: &[&str] = if kind % 2 == 0 { &["text", "xtext"] } else { &["array"] };
+            let cands: Vec<&(Handle, u32)> = types.iter().filter(|(h, _)| kinds.contains(&h.kind())).collect();
+            if cands.is_empty() {
+                return vec![Effect::Nop];
+            }
+            let h = &cands[(*src as usize) % cands.len()].0;
+            // layout of the source through the transaction (public reads + hook H2)
+            let Some(lay) = layout_txn(h, txn, ctx.kind) else { return vec![Effect::Nop] };
+            let n = lay.labels.len();
+            if n == 0 {
+                return vec![Effect::Nop];
+            }
+            let p = (*start as usize) % n;
+            let q = (p + (*len as usize).max(1) - 1).min(n - 1);
+            let mut form = form % 4;
+            // An inclusive end names the element by the index of its (only) unit. Elements that are
+            // several units wide in this replica's offset kind (multi-byte / astral characters)
+            // cannot be named inclusively without pointing into the middle of a character, which is
+            // outside the API's domain: use the exclusive or the unbounded form for them.
+            if (form == 1 || form == 3) && lay.widths[q] != 1 {
+                form = if form == 1 { 0 } else { 4 };
+            }
+            if form == 0 && q + 1 >= n {
+                form = if lay.widths[q] == 1 { 1 } else { 2 }; // an exclusive end must name an existing element
+            }
+            if form == 4 && q + 1 >= n {
+                return vec![Effect::Nop];
+            }
+            let (a, b) = (offs(&lay, p), offs(&lay, q));
+            let key = format!("q{}", key % 4);
+            let cidh = format!("{:?}", h.id());
+            let desc = format!("r{} quote {} elements {}..={} ({}..={}) form {} as {}", ctx.rid, cidh, p, q, lay.labels[p], lay.labels[q], form, key);
+            ctx.log.push(desc.clone());
+            macro_rules! q {
+                ($t:expr) => {
+                    match form {
+                        0 => $t.quote(txn, a..offs(&lay, q + 1)),
+                        1 => $t.quote(txn, a..=b),
+                        2 => $t.quote(txn, a..),
+                        4 => $t.quote(txn, ..offs(&lay, q + 1)),
+                        _ => $t.quote(txn, ..=b),
+                    }
+                };
+            }
+            let (start_u, end_u, end_incl) = match form {
+                0 => (Some(lay.uids[p]), Some(lay.uids[q + 1]), false),
+                1 => (Some(lay.uids[p]), Some(lay.uids[q]), true),
+                2 => (Some(lay.uids[p]), None, true),
+                4 => (None, Some(lay.uids[q + 1]), false),
+                _ => (None, Some(lay.uids[q]), true),
+            };
+            let wid = match h {
+                Handle::Text(t) => match q!(t) {
+                    Ok(pre) => {
+                        let w = roots.m.insert(txn, key.clone(), pre);
+                        format!("{:?}", w.as_ref().id())
+                    }
+                    Err(e) => panic!("quote refused on an in-range text range: {} ({})", e, desc),
+                },
+                Handle::XText(t) => match q!(t) {
+                    Ok(pre) => {
+                        let w = roots.m.insert(txn, key.clone(), pre);
+                        format!("{:?}", w.as_ref().id())
+                    }
+                    Err(e) => panic!("quote refused on an in-range xml text range: {} ({})", e, desc),
+                },
+                Handle::Array(t) => match q!(t) {
+                    Ok(pre) => {
+                        let w = roots.m.insert(txn, key.clone(), pre);
+                        format!("{:?}", w.as_ref().id())
+                    }
+                    Err(e) => panic!("quote refused on an in-range array range: {} ({})", e, desc),
+                },
+                _ => return vec![Effect::Nop],
+            };
+            // creating a quotation must not change the source
+            if let Some(after) = layout_txn(h, txn, ctx.kind) {
+                if after.labels != lay.labels {
+                    panic!("quoting changed the source {}: {:?} -> {:?}", cidh, lay.labels, after.labels);
+                }
+            }
+            vec![Effect::Quote { key, wid, src: cidh, text: !matches!(h, Handle::Array(_)), start: start_u, end: end_u, end_incl, desc }]
+        }
+        Call::Link { src, key } => {
+            let cands: Vec<&(Handle, u32)> = types.iter().filter(|(h, _)| h.kind() == "map").collect();
+            if cands.is_empty() {
+                return vec![Effect::Nop];
+            }
+            let h = &cands[(*src as usize) % cands.len()].0;
+            let Handle::Map(m) = h else { return vec![Effect::Nop] };
+            let k = key_name(*key);
+            let Some(pre) = m.link(txn, &k) else { return vec![Effect::Nop] };
+            let cidh = format!("{:?}", h.id());
+            let uid = yrs::verif::map_chain(txn, &h.id(), &k).and_then(|c| c.first().map(|b| (b.id.client.get(), b.id.clock + b.len - 1)));
+            ctx.log.push(format!("r{} link {}[{}] stored in 'a'", ctx.rid, cidh, k));
+            let w = roots.a.push_back(txn, pre);
+            let wid = format!("{:?}", w.as_ref().id());
+            match uid {
+                Some(uid) => vec![Effect::Link { wid, src: cidh, key: k, uid }],
+                None => vec![Effect::Nop],
+            }
+        }
+        _ => vec![Effect::Nop],
+    }
+}
+
+/// Layout of a sequence inside a running transaction.
+fn layout_txn<T: ReadTxn>(h: &Handle, txn: &T, kind: yrs::OffsetKind) -> Option<Layout> {
+    let (labels, clocks, widths): (Vec<String>, Vec<u32>, Vec<u32>) = match h {
+        Handle::Text(_) | Handle::XText(_) => {
+            let t = h.as_text().unwrap();
+            let (l, c) = text_labels(&t, txn);
+            let wd = text_units(&t, txn).iter().map(|u| u.len(kind)).collect();
+            (l, c, wd)
+        }
+        Handle::Array(a) => {
+            let l: Vec<String> = a.iter(txn).map(|o| label_of_out(&o)).collect();
+            let k = l.len();
+            (l, vec![1; k], vec![1; k])
+        }
+        _ => return None,
+    };
+    let items = yrs::verif::branch_items(txn, &h.id())?;
+    let mut vis = vec![];
+    let mut all = vec![];
+    for it in items.iter() {
+        for k in 0..it.len {
+            let u = (it.id.client.get(), it.id.clock + k);
+            all.push(u);
+            if !it.deleted && it.countable {
+                vis.push(u);
+            }
+        }
+    }
+    if clocks.iter().sum::<u32>() as usize != vis.len() {
+        return None;
+    }
+    let mut uids = vec![];
+    let mut p = 0usize;
+    for c in &clocks {
+        uids.push(vis[p]);
+        p += *c as usize;
+    }
+    Some(Layout { labels, uids, widths, all })
+}
+
+pub fn record(w: &mut World, r: usize, effects: &[Effect]) {
+    for e in effects {
+        match e {
+            Effect::Quote { key, wid, src, text, start, end, end_incl, desc } => {
+                // an observer on the quotation, attached on the replica that created it
+                let fired = Arc::new(Mutex::new(0u32));
+                let f2 = fired.clone();
+                let txn = w.reps[r].doc.transact();
+                if let Some(Out::YWeakLink(wl)) = w.reps[r].roots.m.get(&txn, key) {
+                    drop(txn);
+                    let sub = wl.observe(move |_, _| {
+                        *f2.lock().unwrap() += 1;
+                    });
+                    w.ext.weak.subs.push(sub);
+                }
+                w.ext.weak.quotes.push(QuoteRec { key: key.clone(), wid: wid.clone(), src: src.clone(), text: *text, start: *start, end: *end, end_incl: *end_incl, created_on: r, desc: desc.clone(), fired, last_expected: HashMap::new(), last_fired: 0 });
+                w.cnt.inc("c20_quotes_created");
+            }
+            Effect::Link { wid, src, key, uid } => {
+                w.ext.weak.links.push(LinkRec { wid: wid.clone(), src: src.clone(), key: key.clone(), uid: *uid });
+                w.cnt.inc("c20_links_created");
+            }
+            _ => {}
+        }
+    }
+}
+
+pub fn check(w: &mut World, r: usize) -> Result<(), Violation> {
+    if w.ext.weak.quotes.is_empty() && w.ext.weak.links.is_empty() {
+        return Ok(());
+    }
+    let rep = &w.reps[r];
+    let id = rep.cfg.id;
+    let txn = rep.doc.transact();
+    let live: HashMap<String, Handle> = live_types(&rep.roots, &txn).into_iter().map(|(h, _)| (format!("{:?}", h.id()), h)).collect();
+    let integ = integrated_units(&yrs::verif::store_blocks(&txn));
+    drop(txn);
+    let mut bad: Option<(String, String)> = None;
+    let mut checks = 0u64;
+    let mut updates: Vec<(usize, Vec<String>)> = vec![];
+    let mut soft: Vec<(String, String)> = vec![];
+    for (qi, q) in w.ext.weak.quotes.iter().enumerate() {
+        let txn = rep.doc.transact();
+        let wl = match rep.roots.m.get(&txn, &q.key) {
+            Some(Out::YWeakLink(wl)) if format!("{:?}", wl.as_ref().id()) == q.wid => wl,
+            _ => continue, // not integrated here, or replaced / removed
+        };
+        let Some(h) = live.get(&q.src) else { continue };
+        if q.start.map(|u| !integ.contains(&u)).unwrap_or(false) || q.end.map(|u| !integ.contains(&u)).unwrap_or(false) {
+            continue;
+        }
+        drop(txn);
+        let Some(lay) = layout(rep, h) else { continue };
+        let pos: HashMap<&Uid, usize> = lay.all.iter().enumerate().map(|(i, u)| (u, i)).collect();
+        let si = match q.start {
+            None => 0,
+            Some(u) => match pos.get(&u) {
+                Some(i) => *i,
+                None => continue,
+            },
+        };
+        let ei = match q.end {
+            None => lay.all.len(),
+            Some(u) => match pos.get(&u) {
+                Some(i) => *i + if q.end_incl { 1 } else { 0 },
+                None => continue,
+            },
+        };
+        let mut want: Vec<String> = vec![];
+        for (l, u) in lay.labels.iter().zip(lay.uids.iter()) {
+            let p = pos[u];
+            if p >= si && p < ei {
+                want.push(l.clone());
+            }
+        }
+        let txn = rep.doc.transact();
+        let got: Result<Vec<String>, String> = catch(|| {
+            if q.text {
+                let s = match h {
+                    Handle::XText(_) => WeakRef::<yrs::XmlTextRef>::from(wl.clone()).get_string(&txn),
+                    _ => WeakRef::<TextRef>::from(wl.clone()).get_string(&txn),
+                };
+                s.chars().map(|c| format!("c{}", c)).collect()
+            } else {
+                WeakRef::<ArrayRef>::from(wl.clone()).unquote(&txn).map(|o| label_of_out(&o)).collect()
+            }
+        });
+        drop(txn);
+        checks += 1;
+        let want_cmp: Vec<String> = if q.text { want.iter().filter(|l| l.starts_with('c')).cloned().collect() } else { want.clone() };
+        match got {
+            Err(p) => {
+                bad = Some((format!("panic:{}", p.split(' ').next().unwrap_or("")), format!("dereferencing a quotation panicked: {}", p)));
+                break;
+            }
+            Ok(got) => {
+                // XML text renders formatting as tags: compare plain content only when nothing is formatted
+                let formatted = matches!(h, Handle::XText(_)) && got.iter().any(|c| c == "c<");
+                // embeds render through their own to_string inside a quotation's string: only
+                // embed-free ranges are compared character by character
+                let has_embed = q.text && want.iter().any(|l| !l.starts_with('c'));
+                if got != want_cmp && !formatted && !has_embed {
+                    let cls = if q.text { "text" } else { "array" };
+                    let start_deleted = q.start.map(|u| !lay.uids.contains(&u)).unwrap_or(false);
+                    let end_deleted = q.end.map(|u| !lay.uids.contains(&u)).unwrap_or(false);
+                    bad = Some((format!("quotation-content:{}{}{}", cls, if start_deleted || end_deleted { ":boundary-deleted" } else { "" }, if (start_deleted || end_deleted) && rep.cfg.gc { ":gc-enabled" } else { "" }), format!("r{}: quotation {} of {} ({}) dereferences to {:?}, but the elements currently visible between its boundaries are {:?} (source now {:?})", id, q.key, q.src, q.desc, got, want_cmp, lay.labels)));
+                    break;
+                }
+            }
+        }
+        if r == q.created_on {
+            updates.push((qi, want));
+        }
+    }
+    // observers: a change inside the range on the creating replica must have notified the observer
+    if bad.is_none() {
+        for (qi, want) in updates {
+            let q = &mut w.ext.weak.quotes[qi];
+            let fired = *q.fired.lock().unwrap();
+            if let Some(prev) = q.last_expected.get(&r) {
+                if prev != &want && fired == q.last_fired {
+                    // classify: what changed and where relative to the previous content
+                    let grew = want.len() > prev.len();
+                    let at_end = grew && want.starts_with(prev);
+                    let at_start = grew && want.ends_with(prev);
+                    let cls = format!("{}:{}{}", if q.text { "text" } else { "array" }, if !grew { "removal" } else if at_end { "insert-at-end" } else if at_start { "insert-at-start" } else { "insert-inside" }, if q.end.is_none() && at_end { ":unbounded-end" } else if q.start.is_none() && at_start { ":unbounded-start" } else { "" });
+                    soft.push((format!("observer-not-notified:{}", cls), format!("r{}: content inside quotation {} ({}) changed from {:?} to {:?} but its observer did not fire", id, q.key, q.desc, prev, want)));
+                }
+                if prev != &want {
+                    w.cnt.inc("c20_range_changes_observed");
+                }
+            }
+            q.last_expected.insert(r, want);
+            q.last_fired = fired;
+            if bad.is_some() {
+                break;
+            }
+        }
+    }
+    if bad.is_none() {
+        let rep = &w.reps[r];
+        let txn = rep.doc.transact();
+        let in_array: Vec<(String, yrs::WeakRef<yrs::branch::BranchPtr>)> = rep.roots.a.iter(&txn).filter_map(|o| if let Out::YWeakLink(wl) = o { Some((format!("{:?}", wl.as_ref().id()), wl)) } else { None }).collect();
+        for l in w.ext.weak.links.iter() {
+            let Some((_, wl)) = in_array.iter().find(|(i, _)| i == &l.wid) else { continue };
+            let Some(Handle::Map(m)) = live.get(&l.src) else { continue };
+            if !integ.contains(&l.uid) {
+                continue;
+            }
+            let want = m.get(&txn, &l.key).map(|o| label_of_out(&o));
+            let got = catch(|| WeakRef::<MapRef>::from(wl.clone()).try_deref_value(&txn).map(|o| label_of_out(&o)));
+            checks += 1;
+            match got {
+                Err(p) => {
+                    bad = Some((format!("panic:{}", p.split(' ').next().unwrap_or("")), format!("dereferencing a link panicked: {}", p)));
+                    break;
+                }
+                Ok(got) => {
+                    if got != want {
+                        bad = Some((format!("link-value:{}", if want.is_none() { "removed-entry-still-dereferences" } else { "stale" }), format!("r{}: link to {}[{}] dereferences to {:?}, the entry currently holds {:?}", id, l.src, l.key, got, want)));
+                        break;
+                    }
+                }
+            }
+        }
+    }
+    for (k, d) in soft {
+        let d = format!("{} ;; log tail: {}", d, w.tail(6));
+        w.soft_violation("C20", &k, d);
+    }
+    w.cnt.add("c20_dereferences_checked", checks);
+    let _ = HashSet::<u8>::new();
+    if let Some((k, d)) = bad {
+        return viol("C20", &k, format!("{} ;; log tail: {}", d, w.tail(6)));
+    }
+    Ok(())
 }
